@@ -99,7 +99,7 @@ Proof.
   { cbn [citems xdot]. destruct (citems f g rest); intros H; inversion H; reflexivity. }
   destruct (N.eq_dec r 92) as [->|H92].
   { cbn [citems xdot]. destruct rest as [|r2 rest2]; [discriminate|].
-    destruct (r2 =? RuneError); [discriminate|]. destruct (citems f g rest2); intros H; inversion H; subst.
+    destruct (citems f g rest2); intros H; inversion H; subst.
     cbn. destruct (r2 =? 46) eqn:E; [apply N.eqb_eq in E; subst; reflexivity|].
     apply N.eqb_neq in E. destruct r2 as [|q]; [reflexivity|]. crack q. }
   destruct (N.eq_dec r 91) as [->|H91].
